@@ -60,8 +60,9 @@ DEFECTS = {
         'when no file of the workspace parses the workspace run is skipped and parse errors found at start-up are never published'),
     16: ('lint.go:updateFileDiagnostics/file-job-straddles-delete',
          'not job-atomic: a delete/rename handled while a lint job that took its snapshot of the cache before is still running; '
-         'the job then stores aggregates / diagnostics of the deleted URI again (SetFileAggregates, SetFileDiagnosticsForRules '
-         'and sendFileDiagnostics are unconditional)'),
+         'the job then stores the AGGREGATES (and ignore directives) of the deleted URI again (SetFileAggregates / '
+         'SetFileIgnoreDirectives are unconditional; the diagnostics of the URI itself are only stored when it is still a file '
+         'of the cache, and sendFileDiagnostics then publishes an empty list for it)'),
 }
 
 
@@ -651,6 +652,12 @@ def race_confined(c, agg_codes):
             return False
         w.apply(e)
     agg = set(agg_codes)
+    # the modelled race brings back AGGREGATES of the removed URI; its single-file diagnostics are only stored under the
+    # test that the URI is still a file of the cache (lint_writes_after_lint_check_presence), so a non-aggregate
+    # diagnostic published for a URI that no longer exists is NOT that race
+    for name, ds in (c['published'] or {}).items():
+        if name not in w.cur and any(s.split('|', 1)[0] not in agg for s in ds):
+            return False
     for name in w.cur:
         p = sorted(s for s in (c['published'] or {}).get(name, []) if s.split('|', 1)[0] not in agg)
         f = sorted(s for s in (c['fresh'] or {}).get(name, []) if s.split('|', 1)[0] not in agg)
@@ -751,10 +758,22 @@ def run(ctx):
     tick(ctx, 'test binary built')
     # the cache as shared state: cache-level histories against Model/LspCache.v, beside the server histories
     cache = CacheCheck(ctx, race=not ctx.quick()).start()       # race detector in the thorough tier
+    lintrace = None
     if ctx.replay:
         rp = json.load(open(ctx.replay))
+        if rp.get('kind') == RACE_SIG['kind']:
+            lintrace = LintRace(ctx, binary)
+            lintrace.jobs, lintrace.bursts = [dict(rp['case'], id=0)], []
+            lintrace.start()
+            rp = {}
+        elif rp.get('kind') == BURST_SIG['kind']:
+            lintrace = LintRace(ctx, binary)
+            lintrace.jobs, lintrace.bursts = [], [dict(rp['case'], id=0)]
+            lintrace.start()
+            rp = {}
         jobs = [dict(rp['case'], id=0, tag='replay')] if 'case' in rp else []
     else:
+        lintrace = LintRace(ctx, binary).start()
         jobs = corpus_jobs() + gen_jobs(ctx)
         for i, j in enumerate(jobs):
             j['id'] = i
@@ -768,6 +787,9 @@ def run(ctx):
     # ---- verdicts -----------------------------------------------------------------------------
     cache_ev = cache.finish() or {}
     tick(ctx, 'cache-level check joined')
+    if lintrace is not None:
+        cache_ev.update(lintrace.finish())
+        tick(ctx, 'forced lint/removal interleavings joined')
     n_viol = 0
     for r, j in zip(runs, jobs):
         if r.get('error'):
@@ -1253,6 +1275,103 @@ class CacheCheck:
         if self.err is not None:
             raise self.err
         return cache_verdicts(self.ctx, self.raw) if self.raw is not None else None
+
+
+# ------------------------------------------------------------------ forced interleaving: removal during the lint
+BURST_SIG = {'kind': 'config-change-lost-in-burst',
+             'key': 'server.go:StartDiagnosticsWorker/rate-limiter-drops-a-full-lint'}
+RACE_SIG = {'kind': 'diagnostics-of-removed-file-survive',
+            'key': 'lint.go:updateFileDiagnostics/diagnostics-of-removed-uri-stored-and-republished'}
+
+
+class LintRace:
+    """a file is deleted / renamed away while the file-lint worker is inside linter.Lint for it (harness
+    TestVerifC15LintRace: the interleaving is forced by waiting on the debug log and the cache).  Model-free predicate:
+    at quiescence the removed URI has no diagnostics, neither last published nor cached.  (The AGGREGATES of the removed
+    URI do come back: that is the open finding lint.go:updateFileDiagnostics/file-job-straddles-delete, counted as
+    evidence here and reported by the history part; the signature of a violation found here is a different one.)
+    Runs beside the histories: start() ... finish() -> evidence."""
+    def __init__(self, ctx, binary):
+        import threading
+        self.ctx, self.binary, self.res, self.err, self.log = ctx, binary, None, None, ''
+        self.bursts, self.bres = [{'id': 0, 'turn_off': True}, {'id': 1, 'turn_off': False}], None
+        if ctx.quick():
+            self.jobs = [('change', 'delete'), ('change', 'rename'), ('open', 'delete'), ('create', 'rename')]
+            self.jobs = [{'trigger': t, 'removal': r, 'rules': 300, 'clean': False} for t, r in self.jobs]
+        else:
+            self.jobs = [{'trigger': t, 'removal': r, 'rules': n, 'clean': c} for t in ('change', 'open', 'create')
+                         for r in ('delete', 'rename') for n, c in ((300, False), (600, False), (400, True))]
+        for i, j in enumerate(self.jobs):
+            j['id'] = i
+        self.thread = threading.Thread(target=self._work, daemon=True)
+
+    def _work(self):
+        try:
+            inp = os.path.join(self.ctx.tmp, 'race_in.json')
+            outp = os.path.join(self.ctx.tmp, 'race_out.jsonl')
+            json.dump(self.jobs, open(inp, 'w'))
+            rc, self.log = run_binary(self.ctx, self.binary, 'TestVerifC15LintRace', inp, outp, timeout=2400, workers=4)
+            if os.path.exists(outp):
+                self.res = [json.loads(l) for l in open(outp) if l.strip()]
+            if rc != 0 or self.res is None:
+                raise RuntimeError('C15 lint-race harness failed:\n' + self.log[-3000:])
+            if self.bursts:
+                inp = os.path.join(self.ctx.tmp, 'lburst_in.json')
+                outp = os.path.join(self.ctx.tmp, 'lburst_out.jsonl')
+                json.dump(self.bursts, open(inp, 'w'))
+                rc, log = run_binary(self.ctx, self.binary, 'TestVerifC15LimiterBurst', inp, outp, timeout=2400, workers=2)
+                if os.path.exists(outp):
+                    self.bres = [json.loads(l) for l in open(outp) if l.strip()]
+                if rc != 0 or self.bres is None:
+                    raise RuntimeError('C15 limiter-burst harness failed:\n' + log[-3000:])
+        except BaseException as e:
+            self.err = e
+
+    def start(self):
+        self.thread.start()
+        return self
+
+    def finish(self):
+        self.thread.join()
+        if self.err is not None:
+            raise self.err
+        ctx = self.ctx
+        bad = [r for r in self.res if r.get('gone_published') or r.get('gone_cached')]
+        errs = [r for r in self.res if r.get('error')]
+        for r in bad[:1]:
+            vlib.violation(ctx, {'kind': RACE_SIG['kind'],
+                                 'what': '%s of victim.rego (%d rules) then %s while the file-lint worker is inside linter.Lint for it: at '
+                                         'quiescence the removed URI still has %d published and %d cached diagnostics' % (
+                                             r['trigger'], r['rules'], r['removal'], len(r.get('gone_published') or []), r.get('gone_cached', 0)),
+                                 'case': {k: r[k] for k in ('trigger', 'removal', 'rules', 'clean')},
+                                 'interleaving_obtained': r.get('achieved'), 'published_codes': sorted({x.split('|')[0] for x in r.get('gone_published') or []}),
+                                 'aggregates_of_removed_uri_back': r.get('gone_aggregates'), 'n_scenarios_failing': len(bad),
+                                 'log_tail': r.get('log_tail')}, signature=RACE_SIG)
+        for r in errs[:1]:
+            vlib.violation(ctx, {'kind': 'server-not-idle-or-harness-error', 'case': {k: r[k] for k in ('trigger', 'removal', 'rules', 'clean')},
+                                 'error': r['error'], 'log_tail': r.get('log_tail')}, no_input=False)
+        bev = {}
+        if self.bres is not None:
+            lost = [r for r in self.bres if not r.get('error') and r.get('published') != r.get('fresh')]
+            for r in lost[:1]:
+                vlib.violation(ctx, {'kind': BURST_SIG['kind'],
+                                     'what': 'config change (use-assignment-operator turned %s) while the rate limiter of the workspace-lint dispatcher is '
+                                             'dropping jobs (%d dropped before, %d after the config was loaded; %d workspace runs for the config change): '
+                                             'at quiescence the last publishes are not those of a fresh lint under the new config' % (
+                                                 'off' if r['turn_off'] else 'on', r['drops_before_config'], r['drops_after_config'], r['config_runs']),
+                                     'case': {'turn_off': r['turn_off']}, 'published': r.get('published'), 'fresh': r.get('fresh'),
+                                     'log_tail': r.get('log_tail')}, signature=BURST_SIG)
+            for r in [r for r in self.bres if r.get('error')][:1]:
+                vlib.violation(ctx, {'kind': 'server-not-idle-or-harness-error', 'case': {'turn_off': r['turn_off'], 'burst': True},
+                                     'error': r['error'], 'log_tail': r.get('log_tail')}, no_input=False)
+            bev = {'limiter_burst_scenarios': len(self.bres), 'limiter_burst_config_change_lost': len(lost),
+                   'limiter_burst_jobs_dropped_before_config': [r.get('drops_before_config') for r in self.bres],
+                   'limiter_burst_jobs_dropped_after_config': [r.get('drops_after_config') for r in self.bres],
+                   'limiter_burst_config_runs': [r.get('config_runs') for r in self.bres]}
+        return {**bev, 'lint_race_scenarios': len(self.res), 'lint_race_interleaving_obtained': sum(1 for r in self.res if r.get('achieved')),
+                'lint_race_removed_uri_with_diagnostics': len(bad),
+                'lint_race_aggregates_of_removed_uri_back (open finding file-job-straddles-delete)': sum(1 for r in self.res if r.get('gone_aggregates')),
+                'lint_race_ms': [r.get('lint_ms') for r in self.res]}
 
 
 def cache_check(ctx, race=False):
